@@ -1662,7 +1662,30 @@ func rulesTracePanics(c *Ctx, r *Report) {
 			r.undecided("PANIC-SET", "align."+spec.name, "anchor", "", "trace function not found")
 			continue
 		}
-		for _, f := range c.stageFuncs(root) {
+		fs := c.stageFuncs(root)
+		// and the checks moved into helpers of the package that several functions share (checkTraceEnd(i))
+		inFs := map[*ssa.Function]bool{}
+		for _, f := range fs {
+			inFs[f] = true
+		}
+		for _, f := range append([]*ssa.Function{}, fs...) {
+			for _, g := range c.calleesIn(f) {
+				if inFs[g] || g.Pkg != root.Pkg || g.Blocks == nil || g == c.role("align.decideOnStep") {
+					continue
+				}
+				hasPanic := false
+				instrs(g, func(in ssa.Instruction) {
+					if _, ok := in.(*ssa.Panic); ok {
+						hasPanic = true
+					}
+				})
+				if hasPanic {
+					inFs[g] = true
+					fs = append(fs, g)
+				}
+			}
+		}
+		for _, f := range fs {
 			s := newSymb(f)
 			instrs(f, func(in ssa.Instruction) {
 				pn, ok := in.(*ssa.Panic)
@@ -1793,9 +1816,31 @@ func rulesNCBITokens(c *Ctx, r *Report, rd *ssa.Function) {
 			case "(*regexp.Regexp).FindAllString":
 				n++
 				pat := ""
-				if mk, ok := cl.Call.Args[0].(*ssa.Call); ok && fnIs(mk.Call.StaticCallee(), "regexp", "MustCompile") {
+				recv := cl.Call.Args[0]
+				// the compiled pattern handed to a helper as its parameter: what every call of the helper (in the
+				// reader and its helpers) passes — one and the same value
+				if par, ok := recv.(*ssa.Parameter); ok {
+					var arg ssa.Value
+					same := true
+					for _, g := range fns {
+						for _, site := range staticCallsTo(g, f) {
+							for i, fp := range f.Params {
+								if fp == par && i < len(site.Call.Args) {
+									if arg != nil && arg != site.Call.Args[i] {
+										same = false
+									}
+									arg = site.Call.Args[i]
+								}
+							}
+						}
+					}
+					if arg != nil && same {
+						recv = arg
+					}
+				}
+				if mk, ok := recv.(*ssa.Call); ok && fnIs(mk.Call.StaticCallee(), "regexp", "MustCompile") {
 					pat, _ = constStr(mk.Call.Args[0])
-				} else if ld, ok := cl.Call.Args[0].(*ssa.UnOp); ok {
+				} else if ld, ok := recv.(*ssa.UnOp); ok {
 					// a package-level pattern compiled once
 					if g, ok := ld.X.(*ssa.Global); ok {
 						for init := range c.initFuncsOf("formats/smtext") {
@@ -1822,4 +1867,110 @@ func rulesNCBITokens(c *Ctx, r *Report, rd *ssa.Function) {
 	r.check(len(bad) == 0 && n >= 1, "TOKENS", where, "rows are cut by \\S+", c.pos(rd.Pos()),
 		fmt.Sprintf("every row is cut into tokens by the regular expression \\S+ (%d call sites): header and value rows alike, whatever single bytes the alphabet uses", n),
 		"rows are cut into tokens other than by the regular expression \\S+: "+strings.Join(bad, "; ")+" — a Unicode-aware splitter treats bytes of a single-byte alphabet (0x0B, 0x85, 0xA0 …) as separators or glues tokens")
+}
+
+// rulesTraceStart (T-START): Local's traceback starts at a best cell of the WHOLE table: the function that finds
+// the highest score is handed the table parameter itself (not a part of it), its result is the index the walk
+// starts from as it is (no offset), and its own loop visits every element (no early exit). A search over a part of
+// the table misses alignments that end elsewhere (or panics when the part is empty).
+func rulesTraceStart(c *Ctx, r *Report) {
+	root := c.role("align.traceLocal")
+	where := "align.traceLocal"
+	if root == nil {
+		r.undecided("T-START", where, "anchor", "", "trace function not found")
+		return
+	}
+	n := 0
+	for _, f := range c.stageFuncs(root) {
+		if len(f.Params) == 0 {
+			continue
+		}
+		tblType := f.Params[0].Type()
+		instrs(f, func(in ssa.Instruction) {
+			cl, ok := in.(*ssa.Call)
+			if !ok {
+				return
+			}
+			g := cl.Call.StaticCallee()
+			if g == nil || g.Blocks == nil || g.Pkg != f.Pkg || len(g.Params) != 1 || !types.Identical(g.Params[0].Type(), tblType) || g.Signature.Results().Len() != 1 {
+				return
+			}
+			if bt, ok := g.Signature.Results().At(0).Type().Underlying().(*types.Basic); !ok || bt.Kind() != types.Int {
+				return
+			}
+			n++
+			r.analysed(fname(g))
+			whole := cl.Call.Args[0] == ssa.Value(f.Params[0])
+			r.check(whole, "T-START", fname(f), "searches the whole table", c.pos(cl.Pos()),
+				"the best cell is searched in the table parameter itself", "the best cell is searched in "+newSymb(f).expr(cl.Call.Args[0]).String()+", not in the whole table: alignments that end in the part left out are missed, and an empty part panics")
+			// the result is the start index as it is
+			asIs := false
+			if phi := traceLoopVar(f); phi != nil {
+				for i, e := range phi.Edges {
+					if !phi.Block().Dominates(phi.Block().Preds[i]) && e == ssa.Value(cl) {
+						asIs = true
+					}
+				}
+			} else if cell := traceIndexCell(f); cell != nil {
+				for _, ref := range *cell.Referrers() {
+					if st, ok := ref.(*ssa.Store); ok && st.Addr == ssa.Value(cell) && st.Val == ssa.Value(cl) {
+						asIs = true
+					}
+				}
+			}
+			r.check(asIs, "T-START", fname(f), "starts at the cell found", c.pos(cl.Pos()),
+				"the walk starts at the index the search returned, unchanged", "the index the walk starts at is not the search result as it is (an offset or another value): the walk starts at a different cell than the best one")
+			// the search visits every element
+			var header *ssa.BasicBlock
+			for _, b := range g.Blocks {
+				if isLoopHeader(b) && (header == nil || len(naturalLoop(b)) > len(naturalLoop(header))) {
+					header = b
+				}
+			}
+			okAll := false
+			why := "no loop"
+			if header != nil {
+				loop := naturalLoop(header)
+				okAll, why = true, ""
+				for b := range loop {
+					for _, su := range b.Succs {
+						if !loop[su] && b != header {
+							okAll, why = false, "the loop is left at "+c.pos(lastInstr(b).Pos())
+						}
+					}
+				}
+				// a counted/range loop over len(P0)
+				okBound := false
+				for _, in2 := range header.Instrs {
+					if phi, ok := in2.(*ssa.Phi); ok {
+						var l *countedLoop
+						var w string
+						l, w = findCountedLoop(phi)
+						if w != "" {
+							for _, ref := range *phi.Referrers() {
+								if b, ok := ref.(*ssa.BinOp); ok && b.Op == token.ADD {
+									if l2, w2 := findCountedLoopAny(phi, b); w2 == "" {
+										l, w = l2, ""
+									}
+								}
+							}
+						}
+						if w == "" && l != nil {
+							if bl, ok := l.bound.(*ssa.Call); ok {
+								if bi, ok := bl.Call.Value.(*ssa.Builtin); ok && bi.Name() == "len" && bl.Call.Args[0] == ssa.Value(g.Params[0]) {
+									okBound = true
+								}
+							}
+						}
+					}
+				}
+				if !okBound {
+					okAll, why = false, "the loop does not count over len of the whole parameter"
+				}
+			}
+			r.check(okAll, "T-START", fname(g), "visits every cell", c.pos(g.Pos()),
+				"the search loop runs over every element of its parameter and is left only at its end", "the search for the best cell does not visit every element ("+why+")")
+		})
+	}
+	r.floor("T-START", n, 1, "calls of the best-cell search in Local's traceback")
 }
